@@ -91,10 +91,14 @@ CLAIMED = {
     "C06": {
         "category": "proof",
         "text": "Coq theorems (Properties_C06.v: C06_sound, C06_sound_registered, C06_single_entry, C06_exact_preferred, C06_arity_none, C06_cast_out, C06_call_out, C06_registration, "
-                "C06_attr_null) over ports of boxed_cast, call_func, Param_Types, Attribute_Access, compare_type_to_param, filter, dispatch, dispatch_with_conversions, "
+                "C06_attr_null, and since session 3 C06_no_internal_exception (neither a registered call nor boxed_cast ends in the internal bad_any_cast), "
+                "C06_order_ignores_return_types (stable_sort commutes with any reassignment of return types; dispatch is invariant), C06_nonconst_twin_first (f(T&)/f(const T&) in either "
+                "registration order), C06_const_never_mutable, C06_reseat_history (after any number of re-seats through shared_ptr<T>& every boxed_cast form sees the last object)) over ports of boxed_cast, call_func, Param_Types, Attribute_Access, compare_type_to_param, filter, dispatch, dispatch_with_conversions, "
                 "function_less_than + stable_sort, for all overload lists, registration orders, argument tuples and conversion tables; the Cast_Helper_Inner/verify_type rules, "
                 "boxed_cast control flow, arity check and retry classes are regenerated from the source on every run (t_CastRules.py) and must satisfy rules_ok by computation. Tie: "
-                "19k (quick) / 204k (thorough, part under ASan) cases of a 61-signature catalogue diffed against the extracted model; oracle = extracted specification.",
+                "23k (quick) / 204k+ (thorough, part under ASan) cases of a 75-signature catalogue (incl. const/non-const twins with differing return types, two-parameter twins, "
+                "conversion sources next to catch-alls) and re-seat histories (H lines: 1-3 re-seats then a call or a cast-out in all 11 forms) diffed against the extracted model; the "
+                "translator emits the function_less_than start index, the Sentinel's refreshed pointers and the up-conversion catch class as rules; oracle = extracted specification.",
         "design_ref": "DESIGN.md §6 C06",
         "note": "Hypotheses: callee bodies never throw bad_boxed_cast/arity_error/guard_error (known caveat of dispatch); env_ok; func_wf. exact_preferred is proved as 'what is entered is "
                 "exact' (the 'an exact overload is entered' half is oracle-only). Trusted: translator shape recogniser, catalogue environment mirrored in DispatchSpecRun.v "
